@@ -1239,6 +1239,16 @@ impl Observer for BObserver {
                         // outcome results in a publication)
                         let inc = d.inc;
                         s.out.violate(&["C08"], "outcome_without_publication", "skipped".into(), format!("incarnation {inc}: the writer took the next outcome although the previous one had not been published"));
+                        // C09: a restarted daemon that has handled a non-synchronised outcome and
+                        // published nothing leaves the earlier life's trusted record in place
+                        let d = &s.daemons[di];
+                        let prev_kind = d.cur_msg.and_then(|i| d.polls.get(i)).and_then(|p| p.msg);
+                        let none_yet = d.pubs == 0 && !d.model.seen_sync;
+                        if none_yet && matches!(prev_kind, Some(k) if k != MsgKind::Data) {
+                            if let Some(p) = s.pubs.last().filter(|p| p.inc != inc && p.epoch == s.file_epoch && p.rec.status != 0).cloned() {
+                                s.out.violate(&["C09"], "earlier_life_trust_not_retracted", format!("status={}", status_name(p.rec.status)), format!("incarnation {inc} consumed a {:?} outcome before any synchronised report and published nothing: the segment still carries incarnation {}'s record {:?}", prev_kind.unwrap(), p.inc, p.rec));
+                            }
+                        }
                     }
                     let d = &mut s.daemons[di];
                     d.cur_msg = Some(pi);
